@@ -413,6 +413,12 @@ def f_glob(present=("a", "b"), mode="tree", subs="none", cfg=0, nest=0, deep=0, 
     subs="ab" restricts the named wildcard to [ab]: data/zz.txt then matches the default pattern
     of the wildcard but not the glob. cfg=1: the globbing is done by a sub-plan g.py that also
     has a static input cfg.txt (so it can be pending for a reason of its own)."""
+    if mode == "multi":
+        # a wildcard for a whole directory level: data/<n>/inp.txt inside the static tree data/
+        files = {f"data/{n}/inp.txt": f"data {n}\n" for n in present}
+        body = [tr("G", ["data/{n}/inp.txt"], ["out/{n}.out"])]
+        files["plan.py"] = script([["static", "data/"], ["glob", "data/${*n}/inp.txt", {}, body]])
+        return files
     if deep:
         # the matched files live three levels down inside a static tree and are only listed: no
         # step uses them as input, so they are recorded as matches of the pattern and nowhere else
